@@ -97,11 +97,16 @@ CHECKS = {
         technique='Rocq proof (two fuel inductions over an executable model of both interpreters; table well-behavedness from the product theory) + in-Coq differential correspondence of recorded keys and values + direct oracle register / register(symbolic=True) vs f',
         ref='DESIGN.md 4 (C11)'),
     'C12': dict(
-        text='Theorems: every model operator commutes LITERALLY with any operation-preserving map of coefficients (substitution after '
-             'operating = operating after substitution, any symbolic/numeric partition); polynomial evaluation is such a map for every '
-             'commutative ring and valuation; the zero-filter is sound.  sympy.simplify and the call/lambdify glue are not modelled: '
-             'differential check of call (positional, keyword) and subs against numeric evaluation.',
-        technique='Rocq proof (naturality, structural induction, no ring laws needed) + differential symbolic/numeric correspondence',
+        text='Theorems: (1) every model operator commutes LITERALLY with any operation-preserving map of coefficients; polynomial evaluation '
+             'is such a map for every commutative ring and valuation; the zero-filter is sound.  (2) The call (Model/Call.v follows '
+             'MultiVector.__call__ / free_symbols / _lambdify_mv statement by statement, source-pinned): python string order on names is a '
+             'strict total order; the sorted free symbols are strictly increasing, a permutation of the set and unique; positional arguments '
+             'bind the i-th argument to the i-th name, keyword arguments bind by name independently of keyword order, extra keywords are '
+             'ignored; the result is coefficient-wise evaluation with unchanged keys; keywords {name_i := a_i} = positional (a_i); exact '
+             'iff-characterisation of every exception.  (3) Model operators invent no symbols, and calling the result of any of the 20 model '
+             'operators on symbolic operands = the operator on the called operands (keywords; positional in the result\'s name order).  Not '
+             'modelled: sympy.simplify, LambdaPrinter / cse printing, symbols sharing one name - differential check.',
+        technique='Rocq proof (naturality + sub-structure argument; sorting / permutation; statement-by-statement call model with error branches) + in-Coq correspondence of call binding + differential symbolic/numeric correspondence + source pins',
         ref='DESIGN.md 4 (C12)'),
     'C13': dict(
         text='PARTIAL.  Theorems: (1) results are independent of the symbol class used for code generation (two coefficient structures with '
